@@ -32,7 +32,13 @@ THEOREMS = ['Tbox.C03.C03_only_enabled_ready', 'Tbox.C03.C03_same_open_file_part
             'Tbox.C03.C03_ctl_kernel_within_wanted', 'Tbox.C03.C03_refused_add_unnoticed', 'Tbox.C03.C03_refused_add_dead_event',
             'Tbox.C03.C03_ctl_add_restores', 'Tbox.C03.enableEvF_inv', 'Tbox.C03.enableEvF_breach',
             'Tbox.C03.C03_init_while_enabled_refused', 'Tbox.C03.C03_enable_twice', 'Tbox.C03.C03_reinit_same_fd_mask_sets_mode',
-            'Tbox.C03.C03_swap_keeps_counts', 'Tbox.C03.C03_pool_block_aba']
+            'Tbox.C03.C03_swap_keeps_counts', 'Tbox.C03.C03_pool_block_aba',
+            # round 5: where exactly the engines' reports differ; different events called; event-object address reuse
+            'Tbox.C03.C03_report_backends_agree_iff', 'Tbox.C03.C03_err_two_subscribers_counterexample',
+            'Tbox.C03.C03_reborn_is_fresh', 'Tbox.C03.C03_event_address_aba', 'Tbox.C03.rebornEv_inv',
+            # round 5: refused EPOLL_CTL_MOD / _DEL - the kernel's table lags; safety for ANY kernel answer
+            'Tbox.C03.C03_any_kernel_answer_safe', 'Tbox.C03.C03_refused_mod_del_unnoticed', 'Tbox.C03.C03_lagging_kernel_example',
+            'Tbox.C03.ctlLEv_inv']
 SOURCES = vlib.EVENT_SOURCES + vlib.BASE_SOURCES
 FLAVOUR = 'asan'
 LIBS = ['-ldl']
@@ -46,7 +52,10 @@ TRUSTED = ['model lean/TboxModel/C03/Model.lean hand-written from engines/{epoll
            'Linux epoll/select semantics for socket pairs, pipes and a refused TCP connect (level-triggered; epoll: requested ∩ ready plus EPOLLERR/EPOLLHUP always; '
            'select: read set <- IN|HUP|ERR, write set <- OUT|ERR, except set <- PRI), written down as reportOf / condFd in the model and re-measured on the running kernel by '
            'every check (the K line of every wait must be what the model says that engine reports); ASan + pool poisoning hook H3 for raw memory safety',
-           'libc interposition of epoll_ctl/epoll_wait/select and a virtual clock in the harness (props/C03/harness.cpp, harness/vtime.h)',
+           'libc interposition of epoll_ctl/epoll_wait/select and a virtual clock in the harness (props/C03/harness.cpp, harness/vtime.h); global operator new / delete replaced in the '
+           'harness (malloc/free + a one-slot cache that hands the block of a just deleted event object to the next event object: script item y<e>)',
+           'the kernel\'s own epoll table after refused EPOLL_CTL_MOD / _DEL (Driver/C03.lean realAfter) is acceptor code, not proved: it is compared with the interposer\'s record of the '
+           'successful epoll_ctl calls at every wait, and with State.kern as long as nothing was refused',
            'the harness is compiled with -DDEFAULT_MAX_LOOP_ENTRIES=4 (default 256) so that the growth of the epoll_wait array is reached with 6 descriptors',
            'timer heap and deferred queue are not in the model state: which timers are due / which tasks are in the batch is an oracle input of Step.loop (theorems hold for '
            'every such input); the trace acceptor keeps both queues (1 ms one-shot timers on the virtual clock, run_next queue in posting order with the harness driver task in it) '
@@ -58,21 +67,31 @@ ASSUMPTIONS = ['an event object is not deleted from inside its own callback (the
                'wait errors: EINTR (both engines, injected by the interposer) and EBADF (select, real) are covered; any other error makes the select loop terminate by design and is not injected; '
                'the loop is not re-entered from a callback',
                'epoll_ctl failures: those the kernel itself produces (ADD on a closed number: EBADF, MOD/DEL after the kernel dropped a closed file or after a refused ADD: ENOENT) and '
-               'ENOMEM/ENOSPC/EPERM injected on EPOLL_CTL_ADD by the interposer for any enable() call the op file names (Act.enableF); EEXIST is proved impossible; MOD/DEL are not made '
-               'to fail for other reasons (ep_modify / ep_remove do not allocate). enable() ignores the result of epoll_ctl: the event reports enabled and is never reported until all '
+               'ENOMEM/ENOSPC/EPERM injected on EPOLL_CTL_ADD by the interposer for any enable() call the op file names (Act.enableF); EEXIST is proved impossible as long as no MOD/DEL '
+               'is refused; round 5: ENOMEM/EINVAL/EIO injected on EPOLL_CTL_MOD / _DEL for any enable() / disable() the op file names (Act.ctlL): the loop does not notice, the kernel keeps '
+               'its old entry (EEXIST on a later ADD happens then); in the theorems the kernel may answer ANYTHING in such turns (Step.loopLag, C03_any_kernel_answer_safe) and State.kern is the '
+               'table the loop believes in; the table the kernel really holds is computed by the trace acceptor (Driver/C03.lean realAfter: Linux epoll_ctl semantics incl. EEXIST/ENOENT/EBADF) '
+               'and checked against the interposed epoll_ctl results at every wait - that function is part of the tie, not of the proved model; while nothing was refused it must equal State.kern '
+               '(checked at every wait). enable() ignores the result of epoll_ctl: the event reports enabled and is never reported until all '
                'subscribers of the descriptor were disabled and one is enabled again - safe for this property, a liveness loss the API does not report (C03_refused_add_dead_event)',
                'the ghost flag breach (hypothesis of the same-open-file and back-end-agreement theorems) is also set by every use of the fault injector',
                'except condition = out-of-band data on an AF_UNIX socket pair as this kernel reports it (POLLPRI; a drain discards it); hang-up / error conditions are those of '
                'peer close (with and without unread data), peer shutdown(SHUT_WR), pipe ends closed, refused connect; EPOLLRDHUP is never requested by the code, hence never reported',
-               'back-end agreement is claimed for ready descriptors without hang-up / error only: there the engines report different masks by design (counterexample theorems)',
-               'event objects are created by top-level ops only: a delete + new inside one callback that lands on the same heap address (pointer ABA in the snapshot vector) is not '
-               'exercised (ASan quarantines freed blocks) nor modelled (event ids are never reused); by inspection such an event would be enabled on the ready descriptor']
+               'back-end agreement is PROVED for ready descriptors without hang-up / error only (quietFd): elsewhere the engines report different masks (counterexample theorems; '
+               'C03_report_backends_agree_iff says exactly where) and the check reports the finding',
+               'heap-address ABA of event objects (round 5): a model event id IS the address; Act.reborn = delete + new landing on the same address (+ the same callback), in callbacks, timer '
+               'callbacks, deferred tasks and at top level; the harness makes the allocator reuse the block (replaced operator new / delete with a one-slot cache, malloc/free underneath so '
+               'that ASan still sees every block) - what a plain glibc malloc does for equal sizes and ASan\'s quarantine never does; a new object on a DIFFERENT address is the old case '
+               '(destroy + another id). Other objects are created by top-level ops only',
+               'back-end agreement (third sentence): `cmp` judges every order-independent pass, also with descriptors hung up / in error; there the engines differ - known finding '
+               'backends-differ-hup-err (the statement has no premise excluding them), at most 3 such cases per run (2 corpus + 1 generated); passes in which the kernel table lags are not compared']
 RULE = ('cases = events (scripts of enable/disable/destroy/initialize/close/readiness actions run inside their callbacks) on 1-6 socket pairs, '
         'API ops and loop passes on the real epoll or select loop; non-trivial = some pass served a shared descriptor or >= 2 ready descriptors '
         'while a callback destroyed/disabled/re-initialised events or reused a descriptor number (driver tags shared-fd, multi-ready, skip-*, '
         'loop-break, cb-destroy, cb-init, cb-fd-reuse), or a timer callback that ran between the wait and the dispatch of a ready descriptor destroyed events / reused a '
         'descriptor number / created a record (timer+ready with T-destroy, T-fd-reuse, T-new-record), or a descriptor in hang-up / error was reported with a mask beyond the '
-        'subscription or meeting nobody, or a refused EPOLL_CTL_ADD left a dead registration; distinct = distinct op text')
+        'subscription or meeting nobody, or a refused EPOLL_CTL_ADD left a dead registration, or a refused EPOLL_CTL_MOD / _DEL left the kernel reporting what nobody wants / a descriptor without record / missing what is '
+        'wanted, or an event object reborn on the address of a deleted one was called / skipped in the same pass; distinct = distinct op text')
 
 
 # values of <sys/epoll.h> (Linux ABI) and of the anonymous enum in modules/event/fd_event.h (read from the header below)
@@ -154,6 +173,8 @@ def _act(rng, nev, nfd, self_id, spare):
         return rng.choice('tn') + str(rng.randrange(NFN[0] + (1 if rng.random() < 0.1 else 0)))
     r = rng.random()
     if r < 0.03: return 'E%d' % k
+    if r < 0.05 and k != self_id: return 'y%d' % k
+    if r < 0.075: return rng.choice('DM') + str(k)
     if r < 0.06: return rng.choice('hhs') + str(f)
     if r < 0.22: return 'd%d' % k
     if r < 0.36: return 'e%d' % k
@@ -460,14 +481,55 @@ def gen_hup(rng):
     return ops
 
 
-def gen_hup_cmp(rng):
-    """the same hang-up scenario on epoll and then on select: the driver compares pass by pass where the theorem applies (quiet
-    descriptors) and records the by-design divergence elsewhere (cmp-hup-err)"""
-    f = rng.choice([0, 1, 6, 7])
-    m = rng.choice([1, 2, 3, 4, 6, 5])
-    body = ['new -', 'new -', 'do i0:%d:%d:p' % (f, m), 'do e0', 'do i1:2:1:p', 'do e1', 'do r2', 'pass',
-            'do ' + rng.choice(['h%d' % f, 's%d' % f, 'h2', 'r%d' % f]), 'pass', 'pass']
-    return ['be epoll'] + body + ['be select'] + body + ['cmp']
+def _report(be, m, a, hup, err):
+    """Model.reportOf: what each engine hands to OnEventCallback (tbox bits)"""
+    if be == 'epoll': x = 0 if m == 0 else ((1 if hup else 0) | (4 if err else 0))
+    else: x = (1 if (m & 1) and (hup or err) else 0) | (2 if (m & 2) and err else 0)
+    return (m & a) | x
+
+
+def _hup_cmp_body(rng):
+    """one persistent event (mask m, empty script) on descriptor f, a second one on descriptor 2; a run-time condition on f between
+    two passes.  Returns (body, diverges): the generator's own small copy of condFd / reportOf predicts whether the two engines make
+    different callbacks in some pass (the driver's `cmp` is the judge; a wrong prediction shows up as a report, never as silence)"""
+    f = rng.choice([0, 1, 6, 7, 8])
+    m = rng.choice([1, 2, 3, 4, 6, 5, 7])
+    k = 1 if f == 6 else 2 if f == 7 else 3 if f == 8 else 0
+    st = dict(rd=(k == 3), wr=(k != 1), er=(k == 3), hu=(k == 3), eo=(k == 3), go=(k == 3))
+    pre = rng.choice([[], [], ['b%d' % f], ['r%d' % f], ['b%d' % f, 'r%d' % f]])
+    mid = rng.choice([['h%d' % f], ['h%d' % f], ['s%d' % f], ['h2'], ['r%d' % f], ['s%d' % f, 'h%d' % f]])
+    div = [False]
+    def look():
+        a = (1 if st['rd'] else 0) | (2 if st['wr'] else 0)
+        re_, rs_ = _report('epoll', m, a, st['hu'], st['er']), _report('select', m, a, st['hu'], st['er'])
+        if (re_ if m & re_ else 0) != (rs_ if m & rs_ else 0): div[0] = True
+    def do(op):
+        c = op[0]
+        if int(op[1:]) != f: return
+        if c == 'r' and not (st['eo'] or st['go'] or k == 2): st['rd'] = True
+        elif c == 'b' and not (st['go'] or k == 1): st['wr'] = False
+        elif c == 'h' and not st['go']:
+            if k == 0: st.update(er=st['er'] or not st['wr'], rd=True, wr=True, hu=True, eo=True, go=True)
+            elif k == 1: st.update(hu=True, go=True)
+            else: st.update(er=True, go=True)
+        elif c == 's' and k == 0 and not st['eo'] and not st['go']: st.update(rd=True, eo=True)
+    body = ['new -', 'new -', 'do i0:%d:%d:p' % (f, m), 'do e0', 'do i1:2:1:p', 'do e1', 'do r2']
+    for o in pre: do(o); body.append('do ' + o)
+    look(); body.append('pass')
+    for o in mid: do(o); body.append('do ' + o)
+    look(); body += ['pass', 'pass']
+    return body, div[0]
+
+
+def gen_hup_cmp(rng, diverge=False):
+    """the same hang-up / error scenario on epoll and then on select; `cmp` judges every order-independent pass, also where a
+    descriptor is hung up / in error (round 5: the statement's third sentence has no premise that excludes them).  The random family
+    keeps to the scenarios in which the engines make the same callbacks although their kernel reports differ (read subscribers on a
+    hung-up peer, masks that meet nothing); `diverge=True` yields one in which they do not (finding backends-differ-hup-err: at most
+    three such cases per run, two in the corpus and one here, so that the finding does not crowd out the report slots)"""
+    while True:
+        body, d = _hup_cmp_body(rng)
+        if d == diverge: return ['be epoll'] + body + ['be select'] + body + ['cmp']
 
 
 def gen_ctl(rng):
@@ -550,6 +612,67 @@ def gen_state(rng):
     return ops
 
 
+def gen_lag(rng):
+    """directed (round 5, lesson b): EPOLL_CTL_MOD / EPOLL_CTL_DEL refused by the kernel (`D<e>` = disable(), `M<e>` = enable() whose MOD / DEL
+    fails with ENOMEM / EINVAL / EIO in turn) - the kernel keeps the old mask: it reports conditions nobody wants any more (callbacks with
+    a mask beyond the subscription, or nobody called), misses conditions that were added, keeps a descriptor whose record is gone
+    (served by fd lookup: skipped; a later ADD fails with EEXIST), until a later MOD / DEL succeeds or the descriptor is closed; combined
+    with refused ADDs, one-shot events (their own disable is the refused call's neighbour), close / reopen and deletes in callbacks"""
+    be = rng.choice(['epoll', 'epoll', 'epoll', 'epoll', 'select'])
+    nfd = rng.choice([1, 1, 2])
+    n = rng.choice([2, 3, 4])
+    ops = ['be ' + be]
+    sc = [rng.choice(['-', '-', 'D%d' % j, 'D%d,e%d' % (j, j), 'M%d' % ((j + 1) % n), 'D%d' % ((j + 1) % n), 'd%d,M%d' % (j, j), 'u%d' % (j % nfd),
+                      'x%d,M%d' % ((j + 1) % n, (j + 2) % n), 'D%d,c%d' % (j, j % nfd)]) for j in range(n)]
+    ops += ['new ' + s for s in sc]
+    for j in range(n):
+        ops.append('do i%d:%d:%d:%s' % (j, j % nfd, rng.choice([1, 2, 3, 3, 5, 7, 1]), rng.choice('pppo')))
+    order = list(range(n)); rng.shuffle(order)
+    ops += ['do e%d' % j for j in order[:rng.choice([n, n, n - 1])]]
+    ops += ['do b%d' % f for f in range(nfd) if rng.random() < 0.5]
+    ops += ['do r%d' % f for f in range(nfd) if rng.random() < 0.8] + ['pass']
+    for _ in range(rng.choice([3, 5, 8, 12])):
+        j = rng.randrange(n)
+        ops += rng.choice([['do D%d' % j], ['do D%d' % j], ['do M%d' % j], ['do M%d' % j], ['do d%d' % j], ['do e%d' % j], ['do E%d' % j],
+                           ['do D%d' % k for k in range(n)], ['do x%d' % j], ['do y%d' % j, 'do i%d:%d:%d:p' % (j, rng.randrange(nfd), rng.choice([1, 2, 3]))],
+                           ['do c%d' % rng.randrange(nfd)], ['do %s%d' % (rng.choice('ruwbo'), rng.randrange(nfd))],
+                           ['do d%d' % j, 'do i%d:%d:%d:%s' % (j, rng.randrange(nfd), rng.choice([1, 2, 4, 6]), rng.choice('po')), 'do M%d' % j]])
+        if rng.random() < 0.6: ops.append('pass')
+    if rng.random() < 0.3:
+        # every subscriber goes while the DEL is refused, the records go too: the kernel keeps reporting a descriptor the loop knows nothing
+        # about (fd lookup: skipped); a new event on it meets EEXIST and lives on the stale mask until a MOD succeeds
+        ops += ['do D%d' % k for k in range(n)] + ['do r%d' % f for f in range(nfd)] + ['pass'] + ['do x%d' % k for k in range(n - 1)] + ['pass']
+        ops += ['do i%d:0:%d:p' % (n - 1, rng.choice([1, 2, 4])), 'do e%d' % (n - 1), 'pass', 'do d%d' % (n - 1), 'do e%d' % (n - 1), 'pass']
+    ops += ['pass', 'pass']
+    return ops
+
+
+def gen_eaba(rng):
+    """directed (round 5): heap-address ABA of event objects - inside the callback of event c a sibling v (same or another ready
+    descriptor, before or after c in the subscriber vector) is deleted and a new event object is created on the same address
+    (`y<v>`: the harness's operator new hands the freed block out again), then initialised (same / other descriptor, meeting / missing
+    mask, persistent / one-shot) and enabled or not; the dispatch compares addresses, so the NEW object may be called in the same
+    pass - only if it is enabled on the descriptor being served with a reported condition"""
+    be = rng.choice(['epoll', 'select'])
+    k = rng.choice([2, 2, 3, 4])
+    c = rng.randrange(k); v = rng.choice([x for x in range(k) if x != c])
+    two = rng.random() < 0.4                      # the victim lives on descriptor 1 (also ready)
+    g = rng.choice([0, 0, 0, 1, 2]) if not two else rng.choice([1, 1, 0, 2])
+    m = rng.choice([1, 1, 1, 3, 2, 4, 0])
+    sc = ['y%d' % v] + rng.choice([['i%d:%d:%d:%s' % (v, g, m, rng.choice('ppo')), 'e%d' % v], ['i%d:%d:%d:p' % (v, g, m)], [],
+                                   ['i%d:%d:%d:p' % (v, g, m), 'e%d' % v, 'y%d' % v, 'i%d:%d:1:p' % (v, g), 'e%d' % v],
+                                   ['e%d' % v], ['i%d:%d:%d:p' % (v, g, m), 'e%d' % v, 'd%d' % v]])
+    if rng.random() < 0.2: sc = ['d%d' % v] + sc
+    if rng.random() < 0.15: sc += ['u0']
+    ops = ['be ' + be]
+    for j in range(k): ops.append('new ' + (','.join(sc) if j == c else rng.choice(['-', '-', '-', 'u0', 'd%d' % c])))
+    for j in range(k): ops.append('do i%d:%d:%d:%s' % (j, 1 if (two and j == v) else 0, rng.choice([1, 1, 3]), 'o' if (j == v and rng.random() < 0.3) else 'p'))
+    order = list(range(k)); rng.shuffle(order)
+    ops += ['do e%d' % j for j in order] + ['do b0', 'do b1', 'do r0', 'do r1', 'do r2', 'pass', 'pass']
+    ops += rng.choice([[], ['do y%d' % v, 'do i%d:0:1:p' % v, 'do e%d' % v, 'pass'], ['do y%d' % c, 'do e%d' % c, 'pass'], ['do x%d' % v, 'do y%d' % v, 'pass']])
+    return ops
+
+
 # one minimal witness per defect of the tree as found (also in corpus/C03/*.ops)
 DIRECTED = [
     # D1/D2: the callback of one ready descriptor destroys the only event of the other ready descriptor (symmetric: either order)
@@ -597,7 +720,7 @@ DIRECTED = [
 def gen(rng, tier):
     n = 500 if tier == 'quick' else 25000
     # malformed stream: both sides must answer bad-op
-    yield ['be poll', 'new x0', 'new e1,', 'do h9', 'do s', 'do E', 'new E1,h1022', 'do i0:9:1:p', 'do i0:0:65536:p', 'do i0:0:1:q', 'do q1', 'frob', 'do', 'pass 1', 'new -', 'do e', 'do i0:0:1', 'do c6', 'do k6', 'do c1025', 'do r1022', 'do o', 'cmp 1', 'cmp', 'tm', 'tm', 'bulk 0', 'bulk 201', 'bulk x', 'bulk 2',
+    yield ['be poll', 'new x0',  'new y0', 'do y', 'do y1000', 'do D', 'do M1000', 'new D0,M0,','new e1,', 'do h9', 'do s', 'do E', 'new E1,h1022', 'do i0:9:1:p', 'do i0:0:65536:p', 'do i0:0:1:q', 'do q1', 'frob', 'do', 'pass 1', 'new -', 'do e', 'do i0:0:1', 'do c6', 'do k6', 'do c1025', 'do r1022', 'do o', 'cmp 1', 'cmp', 'tm', 'tm', 'bulk 0', 'bulk 201', 'bulk x', 'bulk 2',
            'fn', 'fn x0,', 'fn t16', 'fn t0,n3,x0', 'fn -', 'do t0', 'do t5', 'do n1', 'do n9', 'do t', 'eintr', 'eintr', 'eintr 1', 'pass', 'pass', 'pass']
     for d in DIRECTED:
         yield list(d)
@@ -621,10 +744,15 @@ def gen(rng, tier):
         yield gen_hup(rng)
     for _ in range(n // 5):
         yield gen_hup_cmp(rng)
+    yield gen_hup_cmp(rng, diverge=True)
     for _ in range(n // 2):
         yield gen_ctl(rng)
     for _ in range(n // 2):
         yield gen_state(rng)
+    for _ in range(n // 2):
+        yield gen_eaba(rng)
+    for _ in range(n // 2):
+        yield gen_lag(rng)
     if tier == 'thorough':
         for k in (64, 65, 70, 130, 200):     # more shared records alive at once than the pool keeps parked (64)
             yield ['be ' + rng.choice(['epoll', 'select']), 'new -', 'do i0:0:1:p', 'do e0', 'bulk %d' % k, 'do r0', 'pass', 'bulk 3', 'new -',
@@ -638,6 +766,8 @@ def nontrivial(ops, model_lines):
     # round 4: a descriptor in hang-up / error was reported and the mask exceeded the subscription or met nobody; a refused ADD left a dead registration
     if ('ready-hup' in tags or 'ready-err' in tags) and ('cb-mask-beyond-subscription' in tags or 'hup-unmet-mask' in tags): return 1
     if 'dead-registration' in tags and 'ctl-add-refused' in tags: return 1
+    if 'kernel-lags' in tags and any(t in tags for t in ('lag-ready-beyond-wanted', 'lag-ready-without-record', 'lag-kernel-misses-wanted')): return 1
+    if 'aba-callback' in tags or 'skip-reborn-elsewhere' in tags: return 1
     # a timer callback ran between the wait and the dispatch of a ready descriptor and destroyed events / reused a number
     return 1 if 'timer+ready' in tags and ('T-destroy' in tags or 'T-fd-reuse' in tags or 'T-new-record' in tags) else None
 
@@ -646,7 +776,7 @@ def fingerprint(ops, d):
     msg = d[1] if d else ''
     m = re.search(r'CRASH ([\w:.-]+)', msg)
     if m: return 'crash-' + re.sub(r'[^A-Za-z0-9_-]+', '_', m.group(1))[:48]
-    for key, fp in (('DESTROYED', 'cb-on-destroyed'), ('DISABLED', 'cb-on-disabled'), ('not due here', 'cb-stale-readiness'),
+    for key, fp in (('back-ends differ hup-err', 'backends-differ-hup-err'), ('DESTROYED', 'cb-on-destroyed'), ('DISABLED', 'cb-on-disabled'), ('not due here', 'cb-stale-readiness'),
                     ('expected a K line', 'loop-exited'), ('timer phase', 'timer-phase'), ('interrupted wait', 'eintr-mismatch'),
                     ('after EBADF pass', 'ebadf-partial-disable'), ('select EBADF', 'ebadf-mismatch'), ('kernel interest', 'kernel-interest'), ('ready list', 'ready-list'), ('missing from the kernel', 'ready-missing')):
         if key in msg: return fp
@@ -667,6 +797,7 @@ LEVEL_NOTE = ('trusted: Lean kernel, hand-written model + trace-acceptor tie (co
               'theorem + replay for a descriptor closed while an enabled event refers to it: the loop cannot know); back-end agreement has a decidable '
               'premise (OrderIndepSyn) that excludes initialize/destroy/close inside callbacks, and is PARTIAL: it holds for ready descriptors without hang-up / error '
               'condition only (counterexample theorems + corpus replays 27/28/31: the engines hand over different masks there, for error-only conditions call different events); '
-              'a refused EPOLL_CTL_ADD leaves an event that reports enabled and is never called (safe here, not reported by the API)')
+              'a refused EPOLL_CTL_ADD leaves an event that reports enabled and is never called (safe here, not reported by the API); after a refused EPOLL_CTL_MOD / _DEL the kernel answer is '
+              'unconstrained in the theorems (safety holds for any answer) and exact only in the acceptor')
 TECHNIQUE = 'Lean 4 invariant proof over all executions of an fd-event model (both back-ends) + trace-acceptor correspondence with the real loops'
 DESIGN_REF = 'DESIGN.md §6 C03'
